@@ -105,6 +105,13 @@ CHECKS['C12'] = dict(
    note='PARTIAL (category other): the theorems end at the token stream handed to the parser; that the LALR tables map equal streams to equal CSS is decided by (b),(c) on the real compiler. The model abstains (counted in the evidence) on backslash escapes, non-ASCII names and unquoted URL shapes inside parentheses. Trusted: Coq kernel; hand-written matchers for each rule expression (Python re semantics); PLY rule-order contract (checked by C12_rule_order against lexer.lexstatere).',
    design='3/C12')
 
+CHECKS['C15'] = dict(
+   category='other',
+   technique='Coq proof on the lexer model (characters of no token are rejected in every state outside strings, with the line counted through any gap and through multi-line strings) and on the evaluator model (undefined variable = error) + exhaustive single corruptions of generated programs on the real compiler with independently computed line numbers + token correspondence including lines',
+   text='Theorems C15_illegal_character, C15_illegal_line (line = start line of the preceding gap + line feeds in it, through block comments, line comments, CR/LF/CRLF), C15_lines_through_gap, C15_lines_through_string, C15_undefined_variable. Correspondence: every generated program (with multi-line plain and interpolated strings, multi-line comments and CRLF in front) is corrupted once per class and position (quick: 3 positions per class and program; thorough: every position): closing brace deleted, truncated inside a block, string left open at end of input, stray closing brace at top level (line checked) and nested, opening brace deleted, declaration colon replaced by a blank (line of the first value token checked), character of no token inserted in a gap (line checked), value replaced by an undefined variable (also against the evaluator model and the reference semantics); the command line must print a diagnostic; raw/filtered token streams with lines model vs real lexer.',
+   note='PARTIAL (category other): unbalanced braces, open strings, missing braces and colons are detected by the LALR parser, which is not modelled; they are decided by the corruption sweep on the real parser. The command line keeps going after a syntax error and also prints the CSS of the remaining rules; the property only asks for the diagnostic there. Trusted: Coq kernel; lexer and evaluator hand models; the line oracle 1 + count of LF before the offending token.',
+   design='3/C15')
+
 NOT_YET = {}
 
 
